@@ -148,19 +148,23 @@ def singleStringCell (c : Cell) : Bool :=
   | .cookie, .form, .other, _ | .cookie, .form, _, false => true
   | _, _, _, _ => false
 
-/-- Cells of the table the serializer **as found** gets wrong (F-table): an absent `style` on a path parameter is not
-    read as `simple`, an absent `explode` is read as neither true nor false, and the non-exploded matrix forms lack
-    `name=`. -/
-def knownBadCell (c : Cell) : Bool :=
+/-- Cells of the table the serializer **as found** gets wrong because defaults are not applied (F32, F33): an absent
+    `style` on a path parameter is not read as `simple`, an absent `explode` is read as neither true nor false. -/
+def badDefaultsCell (c : Cell) : Bool :=
   (c.loc == .path && c.style == none && c.ty != .other) ||
   (c.explode == none && c.ty == .object && ((c.loc == .path && effStyle c == .simple) || c.loc == .header)) ||
   (c.explode == none && c.loc == .query && c.ty == .array &&
-    (effStyle c == .spaceDelimited || effStyle c == .pipeDelimited)) ||
-  (c.loc == .path && effStyle c == .matrix && c.ty != .other && !effExplode c)
+    (effStyle c == .spaceDelimited || effStyle c == .pipeDelimited))
 
-/-- cells for which the single-string round trip is claimed -/
-def goodCell (vt : Variant) (c : Cell) : Bool :=
-  singleStringCell c && (vt == .repaired || !knownBadCell c)
+/-- …and because the non-exploded matrix forms lack `name=` (F34) -/
+def badMatrixCell (c : Cell) : Bool :=
+  c.loc == .path && effStyle c == .matrix && c.ty != .other && !effExplode c
+
+def knownBadCell (c : Cell) : Bool := badDefaultsCell c || badMatrixCell c
+
+/-- cells for which the single-string round trip is claimed (`vt`: defaults site, `vm`: matrix site) -/
+def goodCell (vt vm : Variant) (c : Cell) : Bool :=
+  singleStringCell c && (vt == .repaired || !badDefaultsCell c) && (vm == .repaired || !badMatrixCell c)
 
 /-- the value has the shape its declared type announces -/
 def shapeOk : Ty → Val → Bool
@@ -234,8 +238,8 @@ def StrOk (vs : Variant) (x : Val) : Prop := vs = .repaired ∨ allPlain x = tru
     declared style, explode and type, and whatever the value of that type, the text on the wire exists and the
     reference decoder of the declared style recovers the value up to string coercion — under the explicit
     "nothing inside the value contains the delimiter" hypothesis `Decodable` (unavoidable: the joins are unescaped). -/
-def StyleRoundtrip (vt vs : Variant) : Prop :=
+def StyleRoundtrip (vt vm vs : Variant) : Prop :=
   ∀ (c : Cell) (name : Str) (x : Val) (sh : Shape), singleStringCell c = true → cellShape c = some sh →
-    Decodable name sh x → ∃ w, cellWire vt vs c name x = some w ∧ decodeCell c name w = some (coerce x)
+    Decodable name sh x → ∃ w, cellWire vt vm vs c name x = some w ∧ decodeCell c name w = some (coerce x)
 
 end SV.Spec.C06
